@@ -84,6 +84,17 @@ def localize(p, forms=False):
     return p
 
 
+def dotted(p):
+    """The same program with its modules accepted one by one (the package itself is not accepted) and sibling modules
+    used through `import pkg.mod` and the full dotted name."""
+    for a in p["modules"]:
+        for b in p["modules"]:
+            if a != b:
+                p["imports"][a + "->" + b] = "import_full"
+    p["_accept_modules"] = True
+    return p
+
+
 def prog_cycle(pkg, edges, two_modules=False, builtin_names=False):
     """f0 -e0-> f1 -e1-> ... -> f0 ; main -> f0 (main is outside the cycle unless len(edges)==... )"""
     p = gen.new_program(pkg)
@@ -114,12 +125,19 @@ def prog_cycle(pkg, edges, two_modules=False, builtin_names=False):
     return p
 
 
-def prog_eval_in_eval(pkg, depth, via, spelling="dds.eval"):
+def prog_eval_in_eval(pkg, depth, via, spelling="dds.eval", two_modules=False):
     """main -> d1 -> ... -> d<depth> which calls dds.eval(inner) (or eval(inner) after `from dds import eval`)."""
     p = gen.new_program(pkg)
-    m0 = gen.add_module(p, "e0")
-    inner = gen.add_fn(p, m0, "inner", const=5)
-    chain = [gen.add_fn(p, m0, "d%d" % i, const=i) for i in range(depth + 1)]
+    if two_modules:
+        # the function with the nested eval (and its target) live in a module of their own, imported by the other one
+        m1 = gen.add_module(p, "e1")
+        m0 = gen.add_module(p, "e0")
+        inner = gen.add_fn(p, m1, "inner", const=5)
+        chain = [gen.add_fn(p, m1 if i == depth else m0, "d%d" % i, const=i) for i in reversed(range(depth + 1))][::-1]
+    else:
+        m0 = gen.add_module(p, "e0")
+        inner = gen.add_fn(p, m0, "inner", const=5)
+        chain = [gen.add_fn(p, m0, "d%d" % i, const=i) for i in range(depth + 1)]
     # deepest function contains the nested eval: rendered through a special statement
     p["fns"][chain[-1]]["stmts"] = [{"k": "nested_eval", "fn": inner, "spelling": spelling}]
     for i in range(depth):
@@ -168,7 +186,7 @@ def batch_job(arg):
         steps = []
         accept = []
         for (cid, kind, expect, p, desc) in cases:
-            accept.append(p["pkg"])
+            accept += [gen.modname(p, m) for m in p["modules"]] if p.get("_accept_modules") else [p["pkg"]]
             steps.append(_step(p, stages=desc.get("stages")))
             ctl = control_program(p["pkg"] + "_ctl")
             accept.append(ctl["pkg"])
@@ -269,6 +287,10 @@ def build_cases(tier, seed):
             # a per-case leading segment keeps the cases of one batch (one store) independent of each other
             pref = "/case%d" % (n[0] + 1)
             add("overlap" if ov else "paths-ok", "OVERLAPPING_PATH" if ov else None, prog_paths("o%d" % n[0], [pref + x for x in t], pl), {"paths": list(t), "placement": pl, "adjacent": adjacent})
+            if pl == "two_modules":
+                pref = "/case%d" % (n[0] + 1)
+                add("overlap" if ov else "paths-ok", "OVERLAPPING_PATH" if ov else None, dotted(prog_paths("o%d" % n[0], [pref + x for x in t], pl)),
+                    {"paths": list(t), "placement": pl, "adjacent": adjacent, "accepted": "modules-only"})
             if pl != "data" and (tier != "quick" or (_hi(t) + seed) % 5 == 0 or pl == "two_modules"):
                 pref = "/case%d" % (n[0] + 1)
                 add("overlap" if ov else "paths-ok", "OVERLAPPING_PATH" if ov else None, localize(prog_paths("o%d" % n[0], [pref + x for x in t], pl), forms=True),
@@ -282,6 +304,8 @@ def build_cases(tier, seed):
             if ln <= 3 or tier != "quick":
                 add("cycle", "CIRCULAR_CALL", prog_cycle("y%d" % n[0], list(edges), builtin_names=True), {"edges": list(edges), "names": "builtin-like"})
                 add("cycle", "CIRCULAR_CALL", localize(prog_cycle("y%d" % n[0], list(edges))), {"edges": list(edges), "imports": "function-local"})
+        # ... and through two modules accepted one by one (their package is not), spelled by full dotted names
+        add("cycle", "CIRCULAR_CALL", dotted(prog_cycle("y%d" % n[0], ["call"] * ln, two_modules=True)), {"edges": ["call"] * ln, "accepted": "modules-only", "modules": 2})
         # a cycle of plain calls through two modules that import each other inside the function bodies
         add("cycle", "CIRCULAR_CALL", localize(prog_cycle("y%d" % n[0], ["call"] * ln, two_modules=True), forms=True), {"edges": ["call"] * ln, "imports": "function-local", "modules": 2})
     # ---- eval in eval
@@ -290,6 +314,8 @@ def build_cases(tier, seed):
             add("eval-in-eval", "EVAL_IN_EVAL", prog_eval_in_eval("v%d" % n[0], depth, via), {"depth": depth, "via": via})
             add("eval-in-eval", "EVAL_IN_EVAL", prog_eval_in_eval("v%d" % n[0], depth, via, "eval"), {"depth": depth, "via": via, "spelling": "from dds import eval"})
             add("eval-in-eval", "EVAL_IN_EVAL", localize(prog_eval_in_eval("v%d" % n[0], depth, via)), {"depth": depth, "via": via, "imports": "function-local"})
+            if depth >= 1 and via in ("call", "keep"):
+                add("eval-in-eval", "EVAL_IN_EVAL", dotted(prog_eval_in_eval("v%d" % n[0], depth, via, two_modules=True)), {"depth": depth, "via": via, "accepted": "modules-only", "modules": 2})
     # the same ill-formed evaluations restricted to a prefix of the stages (dds_stages): still rejected, nothing runs
     extra = []
     ill = [c for c in cases if c[2] is not None and "stages" not in c[4]]
@@ -309,7 +335,7 @@ def run(tier, seed):
     rep.rule = (
         "overlap: every ordered set of 1-3 paths (and sampled sets of 4) over %d paths (all paths of <=3 segments on {a,b} plus the confusers %r), keeps placed at top level / in a helper / nested in kept children / "
         "split over two modules / as data functions; cycles: every cycle of length 1-4 with each edge a plain call, a keep, a higher-order reference or a method call; dds.eval nested at depth 0-4 behind calls, keeps "
-        "and methods; variants restricted to a prefix of the stages (dds_stages), variants with the imports (of dds, of sibling modules) written inside the function bodies; each ill-formed evaluation is followed by a well-formed one in the same process. Ground truth (strict-prefix relation, generated call graph) decides the expected code. "
+        "and methods; variants restricted to a prefix of the stages (dds_stages), variants in two modules accepted one by one (their package is not accepted) and used through full dotted names, variants with the imports (of dds, of sibling modules) written inside the function bodies; each ill-formed evaluation is followed by a well-formed one in the same process. Ground truth (strict-prefix relation, generated call graph) decides the expected code. "
         "distinct_nontrivial = distinct ill-formed cases that were rejected with the expected code." % (len(PATHS), CONFUSERS)
     )
     cases = build_cases(tier, seed)
